@@ -175,7 +175,14 @@ PROPS.update({
                    "every range inside every isolating node x replace-family operations: tokens outside the node unchanged; lift_target / can_split do not cross (the fitter itself is outside the proved set).",
                    assumptions=("A1", "A4", "A5", "A6", "A9", "A10", "Z3", "PYVC"), min_obligations=200, shards={"Slice.max_open": 4, "lift_target": 2},
                    bounded_only=["Fitter (replace_step) behaviour at isolating boundaries", "can_split", "ResolvedPos accessors (trusted in tier P, checked natively)"]),
-    "C20": _bounded("C20", "c20", "find_diff_start / find_diff_end against token prefixes / suffixes on equal copies and (document, edited document) pairs sharing sub-trees, incl. astral text; 2 s alarm."),
+    "C20": _hybrid("C20", "c20", ["contracts.model_diff"],
+                   "find_diff_start and find_diff_end, whole bodies: both terminate (variant on every back-edge including `continue`, recursion on a strictly smaller fragment), index safely, "
+                   "return None exactly when the fragments are equal (the recursive definition of Node.eq / Fragment.eq) and otherwise exactly the position given by the recursive first-difference / last-difference "
+                   "specification (descending only into nodes with identical markup; text compared by UTF-16 units, with the startswith shortcuts and the byte-pair scan shown equal to the first differing unit).",
+                   "that the recursive first / last difference specification is the longest common prefix / suffix of the flat token sequences (token oracle on equal copies and on (document, edited document) pairs sharing sub-trees, incl. astral text; 2 s alarm).",
+                   assumptions=("A1", "A4", "A5", "A6", "A7", "A9", "A10", "Z3", "PYVC"), min_obligations=200,
+                   shards={"find_diff_start": 16, "find_diff_end": 14},
+                   bounded_only=["agreement of the recursive specification with the flat token picture", "UTF-16 encoding facts (axioms ub-len, ub-prefix), finite-tree axiom, TextNode type invariants: trusted in tier P, evaluated natively"]),
 })
 
 NOT_APPLICABLE = {}
